@@ -459,6 +459,12 @@ func scenariosC17(tier string) []Scen {
 	if tier != "quick" {
 		db = 5
 	}
+	// full-duplex use under live contexts while the peer resets the connection: both directions fail with a transport
+	// error; both must return, and whatever they record about the failure is ordered (judged for races by C16)
+	for _, rd := range []string{"R", "B"} {
+		d := c17Dup{Dup: "abort", Op: rd, Kind: "none"}
+		out = append(out, Scen{Desc: d, Bound: db, Body: c17AbortBody(d), Check: c17AbortCheck, Obs: c17DupObs})
+	}
 	for _, kind := range []string{"cancel", "deadline"} {
 		for _, op := range []string{"W", "R", "B"} {
 			for _, dup := range []string{"rd-parked", "closer"} {
@@ -666,6 +672,64 @@ func c17DupBody(d c17Dup) func() {
 			peer.Close()
 		})
 	}
+}
+
+func c17AbortBody(d c17Dup) func() {
+	return func() {
+		w := newWorld()
+		st := &c17DupState{}
+		w.LC = st
+		peer, mine := vnet.Pipe("u")
+		mine.Cap = 2
+		mine.Write([]byte("zz")) // the pipe towards the peer is full: a write blocks until the peer reads (or goes away)
+		live := vnet.NewCtx("live")
+		conn := varlink.VerifNewCtxConn(mine)
+		started := 0
+		vsched.Go("L", func() {
+			started++
+			var err error
+			if d.Op == "B" {
+				_, err = conn.ReadBytes(live, 0)
+			} else {
+				_, err = conn.Read(live, make([]byte, 4))
+			}
+			st.lRet = true
+			if err != nil {
+				st.lErr = err.Error()
+			}
+		})
+		vsched.Go("U", func() {
+			vsched.Yield("wait-other-parked", "U", func() bool { return started == 1 && vsched.AliveNamed("conn.go:") == 1 })
+			started++
+			_, err := conn.Write(live, []byte("wxyz."))
+			st.cRet = true
+			if err != nil {
+				st.cErr = err.Error()
+			}
+		})
+		vsched.GoDaemon("E", func() {
+			vsched.Yield("both-started", "E", func() bool { return started == 2 })
+			peer.Abort()
+		})
+	}
+}
+
+func c17AbortCheck(x *vsched.Exec) (string, string) {
+	if x.Panic != "" {
+		return "panic: " + x.Panic, "panic"
+	}
+	if x.HitHorizon {
+		return "", ""
+	}
+	if len(x.Races) > 0 {
+		r := x.Races[0]
+		return fmt.Sprintf("data race on %s: %s and %s are not ordered by happens-before", r.Field, r.First, r.Second), "race " + r.Key()
+	}
+	st := worldOf(x).LC.(*c17DupState)
+	if !st.lRet || !st.cRet {
+		return fmt.Sprintf("the peer reset the connection while a read and a write were in flight: read returned=%v write returned=%v (parked: %v)", st.lRet, st.cRet, x.Parked), "symptom=operation-never-returns"
+	}
+	return "", ""
 }
 
 func c17DupObs(x *vsched.Exec) string {
